@@ -13,7 +13,7 @@ pub fn meta() -> PropertyMeta {
     PropertyMeta {
         id: "C18",
         level: "exploration",
-        rule: "all 14 quantity types with f32 and f64 storage x every suffix the crate defines (random letter case) x decimal literals of magnitude 1e-12..1e12 (and zero) in NRf spellings; no suffix; undefined candidates: suffixes of other quantities, one-character edits of defined ones, random strings up to 12 characters over the suffix alphabet; non-numeric elements; Amplitude<Q> with PK/PP/RMS appended; Db<V,Q> with the DB* suffixes. Oracle: hand-written (quantity, suffix) -> (factor, offset) table from SCPI-99 vol.1 7.x; expected = literal x factor + offset, compared within 16 ulp of the storage type at the largest intermediate magnitude. Added: EVERY letter string up to 6 characters as the suffix of every quantity (4.5 G cases), up to 7 for volt and hertz in the thorough tier. Non-trivial: suffix with a multiplier other than 1, mixed-case spelling, or an undefined near miss.",
+        rule: "all 14 quantity types with f32 and f64 storage x every suffix the crate defines (random letter case) x decimal literals of magnitude 1e-12..1e12 (and zero) in NRf spellings; no suffix; undefined candidates: suffixes of other quantities, one-character edits of defined ones, random strings up to 12 characters over the suffix alphabet; non-numeric elements; Amplitude<Q> with PK/PP/RMS appended; Db<V,Q> with the DB* suffixes. Oracle: hand-written (quantity, suffix) -> (factor, offset) table from SCPI-99 vol.1 7.x; expected = literal x factor + offset, compared within 16 ulp of the storage type at the largest intermediate magnitude. Added: EVERY letter string up to 6 characters as the suffix of every quantity (4.5 G cases), up to 7 for volt and hertz in the thorough tier. Keyword and number text (MAX, INF, NAN, DEF, ON, 1e3 ...) as character / string / block / expression data for every quantity, Db, Amplitude and the non-SI quantities: never accepted. Non-trivial: suffix with a multiplier other than 1, mixed-case spelling, or an undefined near miss.",
         assumptions: &[
             "ANN is uom's 365-day year; a bare temperature is degrees Celsius (the crate's declared base; SCPI leaves it device dependent)",
             "EV = 1.602176634e-19 J (2019 SI)",
